@@ -1024,6 +1024,8 @@ def check_fresh(P, R, tu):
 
 def check(P, R, tier):
     tu = P.tu(UNIT)
+    import grow
+    grow.check_prefix_state(P, R, "RF8-prefix")
     import rounddecode
     nr = rounddecode.run_parallel(R, P, "RF2-round", every=(tier == "thorough"), jobs=14)
     R.floor("RF2-round", "decoded (date, target, direction, --next) points of the date rounding", nr, 300000)
